@@ -1,5 +1,7 @@
 import CddVerif.Properties.C01Whole
 import CddVerif.Properties.C01Google
+import CddVerif.Properties.C01Numpy
+import CddVerif.Properties.C01GoogleReturn
 /-! Aggregator: the property theorems of C01 live in `Properties/C01.lean` (value level), `Properties/C01Whole.lean`
-    (whole docstring, ReST) and `Properties/C01Google.lean` (whole docstring, Google); this module only imports them so that
+    (whole docstring, ReST) `Properties/C01Google.lean` + `C01GoogleReturn.lean` (whole docstring, Google) and `Properties/C01Numpy.lean` (whole docstring, NumPy); this module only imports them so that
     one audit (`#print axioms`) covers all of them. -/
